@@ -111,7 +111,7 @@ theorem stop_o : lsStop o2 "leak".toList none = .ok o3 := by
 /-- on the old history's schema the next load may use the imported type without importing it -/
 theorem load_old_use : ∃ r, load Ex.conv Ex.env Ex.pkgs Ex.schema' none ["<leak/>".toList] [] = .ok r := by
   unfold load
-  simp only [List.mapM_nil, pure, Except.pure, bind, Except.bind, List.isEmpty_nil, if_true]
+  simp only [List.mapM_nil, pure, Except.pure, bind, Except.bind, List.isEmpty_nil, if_true, Option.map_none]
   rw [parseLines, stepLine]
   simp only [shape_leak, openSection, loaderCtx]
   rw [show lsStart { schema := Ex.schema', privateSchema := false, handlers := [], stack := [newMatcher Ex.schema'.top none none], pkgs := Ex.pkgs, conv := Ex.conv } "leak".toList none = _ from start_o]
@@ -127,7 +127,7 @@ theorem load_app_use : load Ex.conv Ex.env Ex.pkgs schemaL none ["<leak/>".toLis
   have hstart : lsStart { Ex.st0 with schema := schemaL } "leak".toList none =
       .error (.cfg { kind := .schema, tag := "unknown type name" }) := rfl
   unfold load
-  simp only [List.mapM_nil, pure, Except.pure, bind, Except.bind, List.isEmpty_nil, if_true]
+  simp only [List.mapM_nil, pure, Except.pure, bind, Except.bind, List.isEmpty_nil, if_true, Option.map_none]
   rw [parseLines, stepLine]
   simp only [shape_leak, openSection, loaderCtx]
   rw [show lsStart { schema := schemaL, privateSchema := false, handlers := [], stack := [newMatcher schemaL.top none none], pkgs := Ex.pkgs, conv := Ex.conv } "leak".toList none = _ from hstart]
@@ -184,7 +184,7 @@ theorem load_fail (n : String) (hs : lineShape (strip ("%import " ++ n).toList) 
     (hi : lsImport (h0 Ex.schema) n.toList = .error f) :
     load Ex.conv Ex.env pkgsH Ex.schema none [("%import " ++ n).toList] [] = .error f := by
   unfold load
-  simp only [List.mapM_nil, pure, Except.pure, bind, Except.bind, List.isEmpty_nil, if_true]
+  simp only [List.mapM_nil, pure, Except.pure, bind, Except.bind, List.isEmpty_nil, if_true, Option.map_none]
   rw [parseLines]
   have := step_fail n hs hd hstrip f hi
   simp only [h0] at this
@@ -264,7 +264,7 @@ theorem load_twin_used : ∃ r, load Ex.conv Ex.env pkgsH schemaL none ["%import
     r.value = .sect [] none [("s".toList, .list [Ex.vLeak])] := by
   have hstrip : strip "q".toList = "q".toList := by decide
   unfold load
-  simp only [List.mapM_nil, pure, Except.pure, bind, Except.bind, List.isEmpty_nil, if_true]
+  simp only [List.mapM_nil, pure, Except.pure, bind, Except.bind, List.isEmpty_nil, if_true, Option.map_none]
   rw [parseLines, stepLine_import _ _ _ _ _ _ _ _ _ shape_q]
   unfold impStep
   rw [replace_nodollar _ _ _ _ _ (by decide), hstrip]
@@ -283,7 +283,7 @@ theorem load_twin_fresh : load Ex.conv Ex.env pkgsH Ex.schema none ["%import q".
     .error (synErr none 2 "start:no matching section defined") := by
   have hstrip : strip "q".toList = "q".toList := by decide
   unfold load
-  simp only [List.mapM_nil, pure, Except.pure, bind, Except.bind, List.isEmpty_nil, if_true]
+  simp only [List.mapM_nil, pure, Except.pure, bind, Except.bind, List.isEmpty_nil, if_true, Option.map_none]
   rw [parseLines, stepLine_import _ _ _ _ _ _ _ _ _ shape_q]
   unfold impStep
   rw [replace_nodollar _ _ _ _ _ (by decide), hstrip]
@@ -328,7 +328,7 @@ theorem appAfterLoad_pH : appAfterLoad Ex.conv Ex.env pkgsH Ex.schema qP = schem
 
 theorem load_pH : ∃ r, load Ex.conv Ex.env pkgsH Ex.schema none ["%import p".toList] [] = .ok r := by
   unfold load
-  simp only [List.mapM_nil, pure, Except.pure, bind, Except.bind, List.isEmpty_nil, if_true]
+  simp only [List.mapM_nil, pure, Except.pure, bind, Except.bind, List.isEmpty_nil, if_true, Option.map_none]
   rw [parseLines]
   have := step_import_pH
   simp only [h0] at this
